@@ -10,6 +10,10 @@ CHECKS = {
         text="Solver-decided within bounds, not a proof: strip_trailing_whitespace (real MIR) is executed symbolically over every UTF-8 string of up to N code points (N=5 quick, 7 thorough; each code point an arbitrary Unicode scalar) and z3 shows the result is non-empty, ends in LF and no line ends in White_Space; the library entry points (real MIR, printer opaque) are shown to return exactly strip(render(..)). Longer strings and the renderer itself are outside the claim.",
         note="Trusted: mirsym encoder; contracts for str::{lines,trim_end,..} and String (validated natively each run: White_Space table over all scalars, differential runs); pretty's renderer output is treated as an arbitrary string; parser fact root=Markup.",
         ref="DESIGN.md §5 C11"),
+    'C13': dict(
+        text="Solver-decided within bounds, not a proof. (A) Typstyle::format_source_range with its real callees trim_range, count_spaces_after_last_newline and the cover search is executed from MIR over every text of up to N code points (4 quick / 6 thorough) and every (start,end) with start on a char boundary and end on a boundary or anywhere beyond the text: z3 shows no panic, that the cover search receives exactly the blank-trimmed range and that nest() receives the spaces after the last LF. (B) the cover search and converter dispatch are executed over abstract trees (root Markup, up to 4/6 nodes, symbolic kinds, leaf lengths, error flags) for any trimmed range inside the text: an Ok result names a non-erroneous Markup/Expr/Pattern node whose range contains the trimmed request, converted in the mode of its nearest Markup/CodeBlock/Equation ancestor; a refusal implies a syntax error in the tree. That splicing the result re-parses to an equivalent tree needs the parser as oracle and is NOT claimed.",
+        note="Trusted: mirsym encoder; std string contracts; typst-syntax node/LinkedNode contracts with kind tables extracted from the real crate; abstract trees over-approximate parser output; converters, AttrStore::new and the renderer opaque; assume-guarantee split between (A) and (B).",
+        ref="DESIGN.md §5 C13"),
 }
 
 NOT_APPLICABLE = {
@@ -62,7 +66,7 @@ def main():
     )
     json.dump(man, open(os.path.join(HERE, 'MANIFEST.json'), 'w'), indent=1)
 
-SOURCE_COMMITS = ["f901964"]
+SOURCE_COMMITS = ["f901964"]  # hooks only; fix: commits are listed in known_findings.json
 
 if __name__ == '__main__':
     main()
